@@ -1,0 +1,128 @@
+//! Verification hooks (feature `verif`). No behaviour of their own: every hook forwards to an
+//! installed handler, or to two environment variables when none is installed.
+use std::io;
+use std::sync::{Arc, RwLock};
+
+use tantivy::tokenizer::{BoxTokenStream, TextAnalyzer, Tokenizer};
+
+use crate::db::Constant;
+
+/// A hook point.
+#[derive(Debug, Clone, Copy)]
+pub struct Point<'a> {
+    /// Name of the point.
+    pub name: &'static str,
+    /// Free-form text argument (asset name).
+    pub text: &'a str,
+    /// Numeric argument (document index, byte count).
+    pub n: usize,
+    /// Second numeric argument (values in document, documents in asset).
+    pub m: usize,
+}
+
+/// The handler installed by a simulator.
+pub trait Handler: Send + Sync {
+    /// A hook point was reached on the calling thread.
+    fn point(&self, p: &Point<'_>) -> io::Result<()>;
+    /// The indexing/query tokenizer is about to tokenize `text` on the calling thread.
+    fn tokenize(&self, text: &str);
+    /// A lookup finished.
+    fn lookup(&self, phrase: &str, hit: Option<&Constant>);
+    /// The metadata file is about to receive `len` bytes after `written` bytes. Returns how many
+    /// of them the underlying `write` is allowed to take (a short write), or an error to report
+    /// instead of writing.
+    fn meta_write(&self, written: usize, len: usize) -> io::Result<usize> {
+        let _ = written;
+        Ok(len)
+    }
+}
+
+static HANDLER: RwLock<Option<Arc<dyn Handler>>> = RwLock::new(None);
+
+/// Install a handler.
+pub fn install(h: Arc<dyn Handler>) {
+    *HANDLER.write().unwrap() = Some(h);
+}
+
+fn handler() -> Option<Arc<dyn Handler>> {
+    HANDLER.read().unwrap().clone()
+}
+
+fn env_matches(var: &str, name: &str, n: usize) -> bool {
+    match std::env::var(var) {
+        Ok(v) => match v.split_once('#') {
+            Some((p, k)) => p == name && k.parse() == Ok(n),
+            None => v == name,
+        },
+        Err(..) => false,
+    }
+}
+
+pub(crate) fn point(name: &'static str, text: &str, n: usize, m: usize) -> io::Result<()> {
+    if let Some(h) = handler() {
+        return h.point(&Point { name, text, n, m });
+    }
+    if env_matches("ANYTHING_VERIF_KILL_AT", name, n) {
+        std::process::abort();
+    }
+    if env_matches("ANYTHING_VERIF_FAIL_AT", name, n) {
+        return Err(io::Error::new(io::ErrorKind::Other, format!("injected failure at {name}#{n}")));
+    }
+    Ok(())
+}
+
+pub(crate) fn lookup(phrase: &str, hit: Option<&Constant>) {
+    if let Some(h) = handler() {
+        h.lookup(phrase, hit);
+    }
+}
+
+#[derive(Clone)]
+struct HookTokenizer {
+    inner: TextAnalyzer,
+}
+
+impl Tokenizer for HookTokenizer {
+    fn token_stream<'a>(&self, text: &'a str) -> BoxTokenStream<'a> {
+        if let Some(h) = handler() {
+            h.tokenize(text);
+        }
+        self.inner.token_stream(text)
+    }
+}
+
+/// Wrap the registered `ngram` tokenizer so that every use passes through the handler.
+pub(crate) fn wrap_tokenizer(index: &tantivy::Index) {
+    if let Some(inner) = index.tokenizers().get("ngram") {
+        index.tokenizers().register("ngram", HookTokenizer { inner });
+    }
+}
+
+/// A writer which reports every write to the handler before performing it.
+pub(crate) struct MetaWriter<W> {
+    inner: W,
+    written: usize,
+}
+
+impl<W> MetaWriter<W> {
+    pub(crate) fn new(inner: W) -> Self {
+        Self { inner, written: 0 }
+    }
+}
+
+impl<W: io::Write> io::Write for MetaWriter<W> {
+    fn write(&mut self, buf: &[u8]) -> io::Result<usize> {
+        point("meta.write", "", self.written, buf.len())?;
+        let allowed = match handler() {
+            Some(h) => h.meta_write(self.written, buf.len())?.clamp(1, buf.len().max(1)),
+            None => buf.len(),
+        };
+        let n = self.inner.write(&buf[..allowed.min(buf.len())])?;
+        self.written += n;
+        Ok(n)
+    }
+
+    fn flush(&mut self) -> io::Result<()> {
+        self.inner.flush()
+    }
+}
